@@ -17,6 +17,10 @@ type prop struct {
 	run func(fields []string) string
 	// optional: set up / tear down around a run
 	init func()
+	// concurrent > 1: the cases are independent and are run by that many goroutines at once (results are
+	// still printed in input order). The real tool runs several loaders / digests concurrently, so state
+	// shared between supposedly independent instances shows up as a wrong answer here.
+	concurrent int
 }
 
 var props = map[string]*prop{}
@@ -43,9 +47,9 @@ func (g *gen) pick(q, t int) int {
 	}
 	if g.tier == "escalated" {
 		// the anchored source files differ from the ones the models were written against:
-		// look harder (6x the quick budget, never more than the thorough one)
-		if q*6 < t {
-			return q * 6
+		// look harder (3x the quick budget, never more than the thorough one)
+		if q*3 < t {
+			return q * 3
 		}
 		return t
 	}
@@ -82,6 +86,10 @@ func main() {
 		}
 		in := bufio.NewReaderSize(os.Stdin, 1<<20)
 		out := bufio.NewWriterSize(os.Stdout, 1<<16)
+		if p.concurrent > 1 {
+			runConcurrent(p, in, out)
+			return
+		}
 		for {
 			line, err := in.ReadString('\n')
 			if len(line) > 0 {
@@ -95,6 +103,42 @@ func main() {
 			}
 		}
 	}
+}
+
+func runConcurrent(p *prop, in *bufio.Reader, out *bufio.Writer) {
+	var lines []string
+	for {
+		line, err := in.ReadString('\n')
+		if len(line) > 0 {
+			lines = append(lines, strings.TrimRight(line, "\n"))
+		}
+		if err != nil {
+			break
+		}
+	}
+	res := make([]string, len(lines))
+	next := make(chan int, len(lines))
+	for i := range lines {
+		next <- i
+	}
+	close(next)
+	done := make(chan bool)
+	for w := 0; w < p.concurrent; w++ {
+		go func() {
+			for i := range next {
+				res[i] = safeRun(p, lines[i])
+			}
+			done <- true
+		}()
+	}
+	for w := 0; w < p.concurrent; w++ {
+		<-done
+	}
+	for _, r := range res {
+		out.WriteString(r)
+		out.WriteByte('\n')
+	}
+	out.Flush()
 }
 
 func safeRun(p *prop, line string) (res string) {
